@@ -2,7 +2,7 @@
 
 package core
 
-// C43: permission model of the internal authentication method, written from the documentation
+// C04: permission model of the internal authentication method, written from the documentation
 // (a user entry admits a request iff the client address is inside its ips list (empty list = any address),
 // one of its permissions grants the action on the path, and user/pass match), plus the generators of the
 // user table. Adapted from harness/auth/c01_internal_test.go; nothing here looks at internal/auth.
@@ -19,26 +19,26 @@ import (
 	"pgregory.net/rapid"
 )
 
-type c43Cred struct {
+type c04Cred struct {
 	enc   string // "any" | "empty" | "plain" | "sha256"
 	plain string
 }
 
-type c43Perm struct {
+type c04Perm struct {
 	action string
 	path   string
 }
 
-type c43User struct {
-	user  c43Cred
-	pass  c43Cred
+type c04User struct {
+	user  c04Cred
+	pass  c04Cred
 	nets  []string
-	perms []c43Perm
+	perms []c04Perm
 }
 
-func c43IsPathAction(a string) bool { return a == "publish" || a == "read" || a == "playback" }
+func c04IsPathAction(a string) bool { return a == "publish" || a == "read" || a == "playback" }
 
-func c43NetContains(cfg string, ipText string) bool {
+func c04NetContains(cfg string, ipText string) bool {
 	client, err := netip.ParseAddr(ipText)
 	if err != nil {
 		return false
@@ -57,11 +57,11 @@ func c43NetContains(cfg string, ipText string) bool {
 	return pfx.Masked().Contains(client)
 }
 
-func c43PermGrants(p c43Perm, action, path string) bool {
+func c04PermGrants(p c04Perm, action, path string) bool {
 	if p.action != action {
 		return false
 	}
-	if !c43IsPathAction(action) {
+	if !c04IsPathAction(action) {
 		return true
 	}
 	switch {
@@ -79,29 +79,29 @@ func c43PermGrants(p c43Perm, action, path string) bool {
 	return false
 }
 
-func c43CredMatches(c c43Cred, guess string) bool {
+func c04CredMatches(c c04Cred, guess string) bool {
 	if c.enc == "empty" {
 		return true
 	}
 	return guess == c.plain
 }
 
-// c43Admits is the model: does the user table admit (user, pass) from ip for action on path?
-func c43Admits(users []c43User, user, pass, ip, action, path string) bool {
+// c04Admits is the model: does the user table admit (user, pass) from ip for action on path?
+func c04Admits(users []c04User, user, pass, ip, action, path string) bool {
 	for _, u := range users {
 		ipOK := len(u.nets) == 0
 		for _, n := range u.nets {
-			if c43NetContains(n, ip) {
+			if c04NetContains(n, ip) {
 				ipOK = true
 			}
 		}
 		permOK := false
 		for _, p := range u.perms {
-			if c43PermGrants(p, action, path) {
+			if c04PermGrants(p, action, path) {
 				permOK = true
 			}
 		}
-		credOK := u.user.enc == "any" || (c43CredMatches(u.user, user) && c43CredMatches(u.pass, pass))
+		credOK := u.user.enc == "any" || (c04CredMatches(u.user, user) && c04CredMatches(u.pass, pass))
 		if ipOK && permOK && credOK {
 			return true
 		}
@@ -111,7 +111,7 @@ func c43Admits(users []c43User, user, pass, ip, action, path string) bool {
 
 // ---------------------------------------------------------------- rendering
 
-func c43Encode(c c43Cred) string {
+func c04Encode(c c04Cred) string {
 	switch c.enc {
 	case "any":
 		return "any"
@@ -124,12 +124,12 @@ func c43Encode(c c43Cred) string {
 	return c.plain
 }
 
-func c43UsersYAML(users []c43User) string {
+func c04UsersYAML(users []c04User) string {
 	b := &strings.Builder{}
 	b.WriteString("authMethod: internal\nauthInternalUsers:\n")
 	for _, u := range users {
-		fmt.Fprintf(b, "  - user: %s\n", strconv.Quote(c43Encode(u.user)))
-		fmt.Fprintf(b, "    pass: %s\n", strconv.Quote(c43Encode(u.pass)))
+		fmt.Fprintf(b, "  - user: %s\n", strconv.Quote(c04Encode(u.user)))
+		fmt.Fprintf(b, "    pass: %s\n", strconv.Quote(c04Encode(u.pass)))
 		if len(u.nets) > 0 {
 			q := make([]string, len(u.nets))
 			for i, n := range u.nets {
@@ -152,7 +152,7 @@ func c43UsersYAML(users []c43User) string {
 	return b.String()
 }
 
-func c43DescUsers(us []c43User) string {
+func c04DescUsers(us []c04User) string {
 	var sb strings.Builder
 	sb.WriteString("[")
 	for i, u := range us {
@@ -172,101 +172,101 @@ func c43DescUsers(us []c43User) string {
 // ---------------------------------------------------------------- generators
 
 var (
-	c43Names     = []string{"alice", "bob", "carol"}
-	c43Passes    = []string{"secret", "pw2", "x"}
-	c43Nets      = []string{"10.1.2.0/24", "10.1.2.3", "10.1.2.4/31", "192.168.0.0/16", "fd00::/64", "fd00::1", "0.0.0.0/0", "127.0.0.1"}
-	c43PermPaths = []string{"", "cam1", "cam2", "cam3", "~^cam", "~^cam1$", "~2$", "cam", "~^CAM", "~cam[13]"}
-	c43Actions   = []string{"read", "read", "read", "read", "publish", "playback", "api"}
-	c43Paths     = []string{"cam1", "cam2"} // published
-	c43ClientIPs = []string{
+	c04Names     = []string{"alice", "bob", "carol"}
+	c04Passes    = []string{"secret", "pw2", "x"}
+	c04Nets      = []string{"10.1.2.0/24", "10.1.2.3", "10.1.2.4/31", "192.168.0.0/16", "fd00::/64", "fd00::1", "0.0.0.0/0", "127.0.0.1"}
+	c04PermPaths = []string{"", "recA", "recB", "cam9", "~^rec", "~^recA$", "~B$", "rec", "~^REC", "~rec[AC]"}
+	c04Actions   = []string{"api", "api", "metrics", "metrics", "pprof", "pprof", "playback", "playback", "playback", "read", "publish"}
+	c04ClientIPs = []string{
 		"10.1.2.3", "10.1.2.4", "10.1.2.5", "10.1.3.3", "192.168.7.7", "192.169.0.1",
 		"fd00::1", "fd00::2", "fd01::1", "127.0.0.1", "10.250.0.1",
 	}
 )
 
-// the harness' own account: learns real playlist and segment names. It is a row of the user table like any other.
-var c43Root = c43User{
-	user:  c43Cred{enc: "plain", plain: "verifroot"},
-	pass:  c43Cred{enc: "plain", plain: "r00tpass"},
+// the harness' own account: reads the configuration before and after the refused requests.
+// It is a row of the user table like any other.
+var c04Root = c04User{
+	user:  c04Cred{enc: "plain", plain: "verifroot"},
+	pass:  c04Cred{enc: "plain", plain: "r00tpass"},
 	nets:  []string{"10.250.0.1"},
-	perms: []c43Perm{{action: "read"}},
+	perms: []c04Perm{{action: "api"}, {action: "metrics"}, {action: "pprof"}, {action: "playback"}},
 }
 
-func c43GenUsers(t *rapid.T) []c43User {
-	n := rapid.IntRange(1, 4).Draw(t, "nusers")
-	us := make([]c43User, 0, n+1)
+func c04GenUsers(t *rapid.T) []c04User {
+	n := rapid.IntRange(1, 5).Draw(t, "nusers")
+	us := make([]c04User, 0, n+1)
 	for i := 0; i < n; i++ {
 		l := fmt.Sprintf("u%d.", i)
-		var u c43User
+		var u c04User
 		if rapid.IntRange(0, 5).Draw(t, l+"any") == 0 {
-			u.user = c43Cred{enc: "any", plain: "any"}
-			u.pass = c43Cred{enc: "empty"}
+			u.user = c04Cred{enc: "any", plain: "any"}
+			u.pass = c04Cred{enc: "empty"}
 		} else {
-			u.user = c43Cred{
+			u.user = c04Cred{
 				enc:   rapid.SampledFrom([]string{"plain", "plain", "sha256"}).Draw(t, l+"userEnc"),
-				plain: rapid.SampledFrom(c43Names).Draw(t, l+"user"),
+				plain: rapid.SampledFrom(c04Names).Draw(t, l+"user"),
 			}
-			u.pass = c43Cred{enc: rapid.SampledFrom([]string{"plain", "plain", "sha256", "empty"}).Draw(t, l+"passEnc")}
+			u.pass = c04Cred{enc: rapid.SampledFrom([]string{"plain", "plain", "sha256", "empty"}).Draw(t, l+"passEnc")}
 			if u.pass.enc != "empty" {
-				u.pass.plain = rapid.SampledFrom(c43Passes).Draw(t, l+"pass")
+				u.pass.plain = rapid.SampledFrom(c04Passes).Draw(t, l+"pass")
 			}
 		}
-		u.nets = rapid.SliceOfN(rapid.SampledFrom(c43Nets), 0, 2).Draw(t, l+"nets")
-		np := rapid.IntRange(0, 3).Draw(t, l+"nperms")
+		u.nets = rapid.SliceOfN(rapid.SampledFrom(c04Nets), 0, 2).Draw(t, l+"nets")
+		np := rapid.IntRange(0, 4).Draw(t, l+"nperms")
 		for j := 0; j < np; j++ {
-			u.perms = append(u.perms, c43Perm{
-				action: rapid.SampledFrom(c43Actions).Draw(t, fmt.Sprintf("%sp%d.action", l, j)),
-				path:   rapid.SampledFrom(c43PermPaths).Draw(t, fmt.Sprintf("%sp%d.path", l, j)),
+			u.perms = append(u.perms, c04Perm{
+				action: rapid.SampledFrom(c04Actions).Draw(t, fmt.Sprintf("%sp%d.action", l, j)),
+				path:   rapid.SampledFrom(c04PermPaths).Draw(t, fmt.Sprintf("%sp%d.path", l, j)),
 			})
 		}
 		us = append(us, u)
 	}
-	return append(us, c43Root)
+	return append(us, c04Root)
 }
 
-// c43Client is who asks for a session: credentials, their placement, the address the proxy reports.
-type c43Client struct {
+// c04Client is who sends a request: credentials, their placement, the address the proxy reports.
+type c04Client struct {
 	user, pass string
-	placement  string // "none" | "basic" | "bearer"
+	placement  string // "none" | "basic" | "bearer" | "query" (user/pass in the URL query: not a supported placement)
 	ip         string
 }
 
-func (c c43Client) effUser() string {
-	if c.placement == "none" {
+func (c c04Client) effUser() string {
+	if c.placement == "none" || c.placement == "query" {
 		return ""
 	}
 	return c.user
 }
 
-func (c c43Client) effPass() string {
-	if c.placement == "none" {
+func (c c04Client) effPass() string {
+	if c.placement == "none" || c.placement == "query" {
 		return ""
 	}
 	return c.pass
 }
 
-// c43GenClient draws a client aimed at one row of the user table, with at most a few clauses spoiled.
-func c43GenClient(t *rapid.T, l string, users []c43User) c43Client {
+// c04GenClient draws a client aimed at one row of the user table, with at most a few clauses spoiled.
+func c04GenClient(t *rapid.T, l string, users []c04User) c04Client {
 	u := users[rapid.IntRange(0, len(users)-1).Draw(t, l+"target")]
-	var c c43Client
-	c.placement = rapid.SampledFrom([]string{"basic", "basic", "bearer", "none"}).Draw(t, l+"placement")
+	var c c04Client
+	c.placement = rapid.SampledFrom([]string{"basic", "basic", "basic", "bearer", "bearer", "none", "query"}).Draw(t, l+"placement")
 	switch {
 	case u.user.enc == "any":
-		c.user = rapid.SampledFrom(append([]string{""}, c43Names...)).Draw(t, l+"user")
-		c.pass = rapid.SampledFrom(append([]string{""}, c43Passes...)).Draw(t, l+"pass")
+		c.user = rapid.SampledFrom(append([]string{""}, c04Names...)).Draw(t, l+"user")
+		c.pass = rapid.SampledFrom(append([]string{""}, c04Passes...)).Draw(t, l+"pass")
 	default:
 		c.user = u.user.plain
 		c.pass = u.pass.plain
 		if u.pass.enc == "empty" {
-			c.pass = rapid.SampledFrom(append([]string{""}, c43Passes...)).Draw(t, l+"pass")
+			c.pass = rapid.SampledFrom(append([]string{""}, c04Passes...)).Draw(t, l+"pass")
 		}
 		switch rapid.IntRange(0, 7).Draw(t, l+"spoilCred") {
 		case 0:
-			c.pass = rapid.SampledFrom(c43Passes).Draw(t, l+"otherPass")
+			c.pass = rapid.SampledFrom(c04Passes).Draw(t, l+"otherPass")
 		case 1:
-			c.user = rapid.SampledFrom(c43Names).Draw(t, l+"otherUser")
+			c.user = rapid.SampledFrom(c04Names).Draw(t, l+"otherUser")
 		case 2:
-			c.pass = c43Encode(u.pass) // the configured (possibly hashed) string itself
+			c.pass = c04Encode(u.pass) // the configured (possibly hashed) string itself
 		}
 	}
 	if c.placement == "bearer" && (c.user == "" || c.pass == "" || strings.Contains(c.user+c.pass, ":")) {
@@ -275,9 +275,9 @@ func c43GenClient(t *rapid.T, l string, users []c43User) c43Client {
 	// address: inside one of the row's networks most of the time
 	if len(u.nets) > 0 && rapid.IntRange(0, 3).Draw(t, l+"ipInside") > 0 {
 		var inside []string
-		for _, ip := range c43ClientIPs {
+		for _, ip := range c04ClientIPs {
 			for _, n := range u.nets {
-				if c43NetContains(n, ip) {
+				if c04NetContains(n, ip) {
 					inside = append(inside, ip)
 					break
 				}
@@ -288,10 +288,10 @@ func c43GenClient(t *rapid.T, l string, users []c43User) c43Client {
 			return c
 		}
 	}
-	c.ip = rapid.SampledFrom(c43ClientIPs).Draw(t, l+"ip")
+	c.ip = rapid.SampledFrom(c04ClientIPs).Draw(t, l+"ip")
 	return c
 }
 
-func (c c43Client) String() string {
+func (c c04Client) String() string {
 	return fmt.Sprintf("%s(%q,%q)@%s", c.placement, c.user, c.pass, c.ip)
 }
